@@ -253,12 +253,14 @@ extern "C" void h_sv_dot_dense()
       for(int i = 0; i < DIM; ++i) { wd[i] = WEIGHT[i]; w[i] = wd[i]; }
       vp_assert(v * w == refdot(in.d, wd), 1);
    }
-   {  // dense operand symbolic, sparse operand: symbolic structure, concrete values
+#ifdef DOT_PART2
+   {  // (thorough tier) dense operand symbolic, sparse operand: symbolic structure, concrete values
       El mem[CAP]; SV v(CAP, mem);
       In in; draw(in, 0, NNZ, true, 1); concrete_values(in, TAB_S); fill(v, in);
       for(int i = 0; i < DIM; ++i) { wd[i] = vp_small(-VDOT, VDOT); w[i] = wd[i]; }
       vp_assert(v * w == refdot(in.d, wd), 2);
    }
+#endif
    vp_cover(1);
 }
 // ---- SVector - Vector, SVector * x, x * SVector (free operators of basevectors.h; the results are new vectors) -------------------
